@@ -1,6 +1,9 @@
 mod c01;
 mod c01model;
 mod c02;
+mod c07;
+mod c09;
+mod c10;
 mod c17;
 mod c18;
 mod c19;
@@ -13,6 +16,7 @@ mod job;
 mod known;
 mod lab;
 mod prod;
+mod prodcheck;
 mod refq;
 mod sys;
 
@@ -46,6 +50,9 @@ fn main() {
             match id {
                 "C01" => c01::check(&tier),
                 "C02" => c02::check(&tier),
+                "C07" => c07::check(&tier),
+                "C09" => c09::check(&tier),
+                "C10" => c10::check(&tier),
                 "C17" => c17::check(&tier),
                 "C18" => c18::check(&tier),
                 "C19" => c19::check(&tier),
@@ -64,6 +71,12 @@ fn main() {
                     for (q, r) in sc.queries.iter().zip(out.replies.iter()) {
                         let ids: Vec<serde_json::Value> = r.rows.iter().map(|row| row.get("id").or(row.get("k")).cloned().unwrap_or(serde_json::Value::Null)).collect();
                         println!("{q} -> status {} rows {} keys {:?} {}", r.status, r.rows.len(), ids, r.failure.clone().unwrap_or_default());
+                        if std::env::var("VERIF_ROWS").is_ok() {
+                            println!("    columns {:?} message {:?}", r.columns, r.message);
+                            for row in &r.rows {
+                                println!("    {}", serde_json::Value::Object(row.clone()));
+                            }
+                        }
                     }
                     0
                 }
